@@ -83,6 +83,9 @@ structure StepOK (m m' : PMem) (p4 : Word) (allocs' : List (Option Word)) : Prop
   inv : Inv m' p4
   core : ∀ va, (walk m' p4 va).map Xlat.core = (walk m p4 va).map Xlat.core
   allocs : AllocsOK m' p4 allocs'
+  /-- the descent writes only present entries and zeroes: the strict variant of the entry invariant
+  ("every non-zero entry is present") is kept as well -/
+  strict : AllPresent m p4 → AllPresent m' p4
 
 /-- **`create_next_table`**: never panics; an error leaves memory untouched; on success the next
 table is in the tree at `r ++ [i]`, no mapping has changed and the invariant holds. -/
@@ -123,7 +126,7 @@ theorem createNextTable_ok (k : Kind) (s : St) (p4 : Word) (r : List Nat) (tbl :
             ((St.wr s0 tbl i (Pte.mk f (linkFl k pflags))).zeroTable f).mem = linked s.mem tbl i f (linkFl k pflags) := by
           intro s0 h0; rw [St.zeroTable_mem, St.wr_mem, h0]; rfl
         have T := tblAt_linked s.mem p4 hinv r tbl i f (linkFl k pflags) hr hrl hri hi hzero hfresh hlf
-        refine ⟨⟨?_, ?_, ?_⟩, ?_⟩
+        refine ⟨⟨?_, ?_, ?_, ?_⟩, ?_⟩
         · rw [hmem ⟨s.mem, rest, _⟩ rfl]; exact Inv_linked s.mem p4 hinv r tbl i f _ hr hrl hri hi hzero hfresh hlf
         · intro va; rw [hmem ⟨s.mem, rest, _⟩ rfl, walk_linked s.mem p4 hinv r tbl i f _ hr hrl hri hi hzero hfresh hlf va]
         · rw [hmem ⟨s.mem, rest, _⟩ rfl]
@@ -136,6 +139,9 @@ theorem createNextTable_ok (k : Kind) (s : St) (p4 : Word) (r : List Nat) (tbl :
           · split at hg
             · cases hg
             · left; exact hg
+        · intro hst
+          rw [hmem ⟨s.mem, rest, _⟩ rfl]
+          exact EntriesOK_linked s.mem p4 hinv r tbl i f _ hr hrl hri hi hzero hfresh hlf _ hst
         · rw [hmem ⟨s.mem, rest, _⟩ rfl, T (r ++ [i]) (by simp; omega)
             (IdxOK_append.2 ⟨hri, fun j hj => by simp at hj; rw [hj]; exact hi⟩)]
           simp
@@ -143,12 +149,13 @@ theorem createNextTable_ok (k : Kind) (s : St) (p4 : Word) (r : List Nat) (tbl :
     have hu' : Pte.isUnused (s.mem tbl i) = false := by simpa using hu
     have hne : s.mem tbl i ≠ 0#64 := by
       intro h0; rw [h0] at hu'; simp [Pte.isUnused] at hu'
-    have hP : Pte.present (s.mem tbl i) = true := hinv.pres r tbl i (by omega) hri hr hi hne
     simp only [hu', Bool.false_eq_true, if_false]
     by_cases hh : Pte.huge (s.mem tbl i) = true
     · simp only [hh, if_true]
       exact ⟨rfl, hal⟩
     · have hS : Pte.huge (s.mem tbl i) = false := by simpa using hh
+      -- a non-zero, non-huge entry of a level-4/3/2 table is a table link: present
+      have hP : Pte.present (s.mem tbl i) = true := hinv.present_of_not_huge r tbl i hrl hri hr hi hne hS
       simp only [hS, Bool.false_eq_true, if_false]
       have hnt0 : nextTable (s.mem tbl i) = .ok (Pte.addr (s.mem tbl i)) := by
         unfold nextTable; simp [hS, hP]
@@ -160,15 +167,19 @@ theorem createNextTable_ok (k : Kind) (s : St) (p4 : Word) (r : List Nat) (tbl :
           rw [nextTable_ok_iff]; exact (tableOf_some_iff _ _).2 ⟨b1, b2, by rw [b3]; rfl⟩
         simp only [hnt]
         obtain ⟨i1, i2, i3⟩ := set_table_entry s.mem p4 hinv r tbl i _ hr hrl hri hi hP hS b1 b2 b3
-        refine ⟨⟨i1, i3, ?_⟩, ?_⟩
+        refine ⟨⟨i1, i3, ?_, ?_⟩, ?_⟩
         · simp only [St.wr_mem, St.wr_allocs, St.rd_mem, St.rd_allocs]
           exact AllocsOK_same s.mem _ p4 (fun q g hq hqi hg => by rw [i2 q hq hqi] at hg; exact hg) _ hal
+        · intro hst
+          have hto : tableOf (Pte.setFlags (s.mem tbl i) (Pte.flags (s.mem tbl i) ||| pflags)) = tableOf (s.mem tbl i) := by
+            rw [(tableOf_some_iff _ _).2 ⟨b1, b2, rfl⟩, (tableOf_some_iff _ _).2 ⟨hP, hS, rfl⟩, b3]
+          exact AllPresent_set s.mem p4 hinv.wf hst r tbl i _ hr (by omega) hri (Or.inr hto) (Or.inr b1)
         · simp only [St.wr_mem, St.rd_mem]
           rw [i2 (r ++ [i]) (by simp; omega) (IdxOK_append.2 ⟨hri, fun j hj => by simp at hj; rw [hj]; exact hi⟩)]
           rw [tblAt_append, hr]
           simp [tblAt, (tableOf_some_iff _ _).2 ⟨hP, hS, rfl⟩]; rfl
       · simp only [hc, Bool.false_eq_true, if_false, hnt0]
-        refine ⟨⟨hinv, fun _ => rfl, hal⟩, ?_⟩
+        refine ⟨⟨hinv, fun _ => rfl, hal, id⟩, ?_⟩
         simp only [St.rd_mem]
         rw [tblAt_append, hr]
         simp [tblAt, (tableOf_some_iff _ _).2 ⟨hP, hS, rfl⟩]; rfl
@@ -180,7 +191,7 @@ open X86.Spec
 
 theorem StepOK.trans {m m1 m2 : PMem} {p4 : Word} {a1 a2 : List (Option Word)}
     (h1 : StepOK m m1 p4 a1) (h2 : StepOK m1 m2 p4 a2) : StepOK m m2 p4 a2 :=
-  ⟨h2.inv, fun va => (h2.core va).trans (h1.core va), h2.allocs⟩
+  ⟨h2.inv, fun va => (h2.core va).trans (h1.core va), h2.allocs, fun h => h2.strict (h1.strict h)⟩
 
 /-- **The descent of `map_to`** through the parent tables, creating the missing ones: never panics;
 whatever happens (success, allocation failure at any point, huge parent), no mapping changes and
@@ -198,7 +209,7 @@ theorem createPath_ok (k : Kind) (pflags : Word) (p4 : Word) (hpf : ParentFlagsO
   | nil =>
     intro r tbl s hinv hr _ _ hal
     simp only [createPath, List.append_nil]
-    exact ⟨⟨hinv, fun _ => rfl, hal⟩, hr⟩
+    exact ⟨⟨hinv, fun _ => rfl, hal, id⟩, hr⟩
   | cons i parents ih =>
     intro r tbl s hinv hr hlen hidx hal
     have hrl : r.length ≤ 2 := by simp at hlen; omega
@@ -216,7 +227,7 @@ theorem createPath_ok (k : Kind) (pflags : Word) (p4 : Word) (hpf : ParentFlagsO
         | error e =>
           obtain ⟨hm, ha⟩ := hstep
           simp only
-          exact ⟨hm ▸ hinv, fun va => by rw [hm], ha⟩
+          exact ⟨hm ▸ hinv, fun va => by rw [hm], ha, fun h => hm ▸ h⟩
         | ok t1 =>
           obtain ⟨hs1, ht1⟩ := hstep
           simp only
